@@ -91,7 +91,11 @@ class Routine(Schedule, CommentableMixin):
         is_eq = super().__eq__(other)
         is_eq = is_eq and self.name == other.name
         is_eq = is_eq and self.is_program == other.is_program
-        is_eq = is_eq and self.return_symbol == other.return_symbol
+        # Symbols are only comparable by identity and a copy of this
+        # Routine has its own return symbol, so compare them by name.
+        my_ret = self.return_symbol.name if self.return_symbol else None
+        other_ret = other.return_symbol.name if other.return_symbol else None
+        is_eq = is_eq and my_ret == other_ret
 
         return is_eq
 
